@@ -69,9 +69,17 @@ def handle : P String := do
     let vals ← P.list P.rat
     P.done
     let f := ofList [n] vals
-    match coarsenCodedLevels n levels n (fun i => f [i]) with
+    match coarsenLevels levels n (fun i => f [i]) with
     | .error e => pure e.show
     | .ok (m, g) => pure (toString m ++ " | " ++ showRats ((List.range m).map g))
+  else if cmd = "canvas" then do
+    -- canvas k {top left rows cols vals}^k: canvas computed by the model; "top left R C | values"
+    let imgs ← P.list (do
+      let t ← P.int; let l ← P.int; let r ← P.nat; let c ← P.nat; let vals ← P.list P.rat
+      pure ({ top := t, left := l, rows := r, cols := c, val := ofList [r, c] vals } : PlacedZ))
+    P.done
+    let cv := canvasOf imgs
+    pure (s!"{cv.top} {cv.left} {showNats cv.shape} | " ++ tab cv.shape (superpose (imgs.map (onCanvas cv))))
   else if cmd = "equalize" then do
     -- equalize <shape list> <dims list> <vs|none>: target shape of equalize_voxel_size
     let shape ← P.list P.nat; let dims ← P.list P.rat; let vs ← P.opt P.rat
